@@ -187,10 +187,11 @@ cs_format(char *str, size_t maxlen, struct qb_log_callsite *cs, va_list ap)
 	len = vsnprintf(str, maxlen, cs->format, ap_copy);
 	va_end(ap_copy);
 
-	if (len > maxlen) {
-		len = maxlen;
+	if (len >= maxlen) {
+		/* truncated: the last byte is the terminator */
+		len = maxlen - 1;
 	}
-	if (str[len - 1] == '\n') {
+	if (len > 0 && str[len - 1] == '\n') {
 		str[len - 1] = '\0';
 	}
 }
